@@ -8,6 +8,7 @@ from vlib.term import z, to_coq
 
 ID = 'C08'
 PROP_FILE = 'Props/C08.v'
+EXTRA_PROP_FILES = ['Props/C08Src.v']     # K1 source tie (tools/props/src_translate.py), see docs/reports/SRC.md
 EVAL_FILES = ['Oracle/C08Oracle.v', 'Proofs/BroadcastThreadsProofs.v', 'Proofs/BroadcastOrder.v']
 CRATES = ['c08']
 MODES = ['debug', 'release']
